@@ -221,12 +221,29 @@ func isEOFLoad(v ssa.Value) bool {
 	return ok && g.Pkg != nil && g.Pkg.Pkg.Path() == "io" && g.Name() == "EOF"
 }
 
-func definitelyNonNilErr(v ssa.Value) bool {
+func definitelyNonNilErr(v ssa.Value) bool { return definitelyNonNilErrD(v, 0) }
+
+func definitelyNonNilErrD(v ssa.Value, depth int) bool {
 	switch x := v.(type) {
 	case *ssa.Call:
 		if f := x.Call.StaticCallee(); f != nil {
 			n := qname(f)
-			return n == "fmt.Errorf" || n == "errors.New"
+			if n == "fmt.Errorf" || n == "errors.New" {
+				return true
+			}
+			// a module helper that only builds an error: every return hands back a constructed one
+			if depth < 2 && f.Blocks != nil && f.Pkg != nil && strings.HasPrefix(f.Pkg.Pkg.Path(), modPath) && f.Signature.Results().Len() == 1 && isErrT(f.Signature.Results().At(0).Type()) {
+				nRet, all := 0, true
+				instrs(f, func(in ssa.Instruction) {
+					if rt, ok := in.(*ssa.Return); ok && len(rt.Results) == 1 {
+						nRet++
+						if !definitelyNonNilErrD(rt.Results[0], depth+1) {
+							all = false
+						}
+					}
+				})
+				return nRet > 0 && all
+			}
 		}
 	case *ssa.UnOp:
 		if g, ok := x.X.(*ssa.Global); ok && x.Op == token.MUL && g.Pkg != nil {
@@ -415,8 +432,11 @@ func (e *fdEngine) terms(fn *ssa.Function) []*fdTerm {
 	}
 	// error parameters of ordinary module functions: whoever passes a stream error in delegates its reporting
 	if fn.Synthetic == "" && e.mode == fdStream && fn.Pkg != nil && strings.HasPrefix(fn.Pkg.Pkg.Path(), modPath) {
-		for _, p := range fn.Params {
+		for pi, p := range fn.Params {
 			if isErrT(p.Type()) {
+				if e.onlySentinelArgs(fn, pi) {
+					continue // every caller passes a fixed sentinel (io.EOF, io.ErrUnexpectedEOF, nil): a value to return, not an error that happened
+				}
 				t := &fdTerm{val: p, what: "error parameter " + p.Name() + " (passed in by the caller)", alias: map[ssa.Value]bool{p: true}}
 				src[p] = t
 				out = append(out, t)
@@ -859,4 +879,35 @@ func retOperands(ret *ssa.Return) []ssa.Value {
 		}
 	}
 	return out
+}
+
+// onlySentinelArgs: fn has static callers in the module and each passes a package-level error variable or nil at
+// parameter pi.
+func (e *fdEngine) onlySentinelArgs(fn *ssa.Function, pi int) bool {
+	n := 0
+	all := true
+	for _, g := range e.c.moduleFuncs() {
+		instrs(g, func(in ssa.Instruction) {
+			ci, ok := in.(ssa.CallInstruction)
+			if !ok || ci.Common().StaticCallee() != fn {
+				return
+			}
+			args := ci.Common().Args
+			if pi >= len(args) {
+				all = false
+				return
+			}
+			n++
+			switch a := args[pi].(type) {
+			case *ssa.Const:
+			case *ssa.UnOp:
+				if _, isG := a.X.(*ssa.Global); !isG || a.Op != token.MUL {
+					all = false
+				}
+			default:
+				all = false
+			}
+		})
+	}
+	return n > 0 && all
 }
